@@ -7,15 +7,15 @@ declare -A REL=( [C01]="C01 C06 C07 C15 C16" [C02]="C02 C01 C03 C17 C04" [C03]="
  [C06]="C06 C04 C01 C15" [C07]="C07 C09 C01" [C08]="C08 C09 C06 C01" [C09]="C09 C07 C01" [C10]="C10 C04 C06 C15" [C11]="C11 C06 C15 C01"
  [C12]="C12 C01 C15" [C13]="C13 C03 C15" [C14]="C14 C09 C03" [C15]="C15 C09 C11" [C16]="C16 C19 C01" [C17]="C17 C10 C03" [C18]="C18 C05"
  [C19]="C19 C16 C07" [C20]="C20 C15" )
-out=$V/seeded/matrix.tsv; : > $out
+out=$V/seeded/${MATRIX:-matrix.tsv}; : > $out
 one() { seed=$1; id=$2; wt=$3; s=$(date +%s)
   VERIF_REPO=$wt VERIF_SEED=0 ./check $id --tier quick > $wt.$id.out 2>/dev/null; rc=$?; e=$(date +%s)
-  printf "%s\t%s\t%s\t%s\t%s\n" $seed $id $rc $((e-s)) "$(grep -m1 '^VIOLATION' $wt.$id.out | sed 's/replay=[^ ]*//')" >> $V/seeded/matrix.tsv; }
+  printf "%s\t%s\t%s\t%s\t%s\n" $seed $id $rc $((e-s)) "$(grep -m1 '^VIOLATION' $wt.$id.out | sed 's/replay=[^ ]*//')" >> $V/seeded/${MATRIX:-matrix.tsv}; }
 export -f one; export V
 for seed in ${@:-C01 C02 C03 C04 C05 C06 C07 C08 C09 C10 C11 C12 C13 C14 C15 C16 C17 C18 C19 C20}; do
   wt=/tmp/mx_$seed; rm -rf $wt; git clone -q /repo $wt && git -C $wt apply $V/seeded/$seed/patch.diff || { echo -e "$seed\t-\tpatch-does-not-apply" >> $out; continue; }
   # seeds one after the other; the (distinct) checks of one seed in parallel
-  for id in ${REL[$seed]}; do
+  for id in ${REL[${seed%%_*}]}; do
     one $seed $id $wt &
     while [ $(jobs -r | wc -l) -ge ${PAR:-3} ]; do sleep 2; done
   done
